@@ -106,7 +106,7 @@ fn collect_vec_pairs(mfs: Vec<proto::MetricFamily>, hist: bool) -> Value {
             if hist {
                 out.push(json!([key, hist_json(m.get_histogram())]));
             } else {
-                out.push(json!([key, num(m.get_counter().value())]));
+                out.push(json!([key, num(crate::pm::counter_value(m))]));
             }
         }
     }
@@ -285,7 +285,7 @@ fn project(obj: &Obj, s: &Sched, names: &[String]) -> Value {
                 let mut ch = BTreeMap::new();
                 for mf in v.collect() {
                     for m in mf.get_metric() {
-                        ch.insert(label_of(m, "l"), num(m.get_counter().value()));
+                        ch.insert(label_of(m, "l"), num(crate::pm::counter_value(m)));
                     }
                 }
                 o["children"] = json!(ch);
@@ -299,7 +299,7 @@ fn project(obj: &Obj, s: &Sched, names: &[String]) -> Value {
                 let mut ch = BTreeMap::new();
                 for mf in v.collect() {
                     for m in mf.get_metric() {
-                        ch.insert(label_of(m, "l"), num(m.get_counter().value()));
+                        ch.insert(label_of(m, "l"), num(crate::pm::counter_value(m)));
                     }
                 }
                 o["children"] = json!(ch);
